@@ -8,6 +8,8 @@ package main
 import (
 	"fmt"
 	"net/netip"
+	"os"
+	"runtime/pprof"
 	"strings"
 	"time"
 
@@ -23,6 +25,14 @@ import (
 
 func main() {
 	fw.RegisterRole("probe", probe)
+	fw.RegisterRole("bench", bench)
+	if pf := os.Getenv("COND_CPUPROFILE"); pf != "" { // development aid: profile a single -case run
+		f, err := os.Create(pf)
+		if err == nil {
+			_ = pprof.StartCPUProfile(f)
+			defer pprof.StopCPUProfile()
+		}
+	}
 	fw.Main()
 }
 
@@ -58,6 +68,34 @@ func probe(args []string) int {
 			g := condx.NewGuardedKey(f, l)
 			res, pm := condx.Eval(n, g.Key)
 			fmt.Printf("flow %-50s layout=%d result=%v panic=%q changed=%q\n", f.KeyString(), l, res, condx.FirstLine(pm), g.Changed())
+		}
+	}
+	return 0
+}
+
+// bench times the stages of condition preparation on nested / chained inputs of growing size.
+func bench(args []string) int {
+	eng.QuietLogs(nil)
+	for _, n := range []int{500, 1000, 2000, 4000, 8000} {
+		for _, kind := range []string{"nest", "chain"} {
+			var text string
+			if kind == "nest" {
+				text = strings.Repeat("(", n) + "dport = 80" + strings.Repeat(")", n)
+			} else {
+				parts := make([]string, n)
+				for i := range parts {
+					parts[i] = fmt.Sprintf("dport = %d", i)
+				}
+				text = strings.Join(parts, " | ")
+			}
+			t0 := time.Now()
+			san := conditions.SanitizeUserInput(text)
+			t1 := time.Now()
+			toks, _ := conditions.Tokenize(san)
+			t2 := time.Now()
+			_, _, err, _ := condx.Parse(san)
+			t3 := time.Now()
+			fmt.Printf("%-5s n=%-5d bytes=%-7d sanitize=%-10v tokenize=%-10v (%d tokens) parse+instrument=%-10v err=%v\n", kind, n, len(text), t1.Sub(t0), t2.Sub(t1), len(toks), t3.Sub(t2), err != nil)
 		}
 	}
 	return 0
